@@ -163,6 +163,7 @@ Definition zspan (z : zraw) : span :=
 
 (* one block before placement: raw payload, stored bytes, the span its index entry records *)
 Record binfo := { bi_raw : list N; bi_stored : list N; bi_span : span }.
+Definition binfo0 : binfo := {| bi_raw := []; bi_stored := []; bi_span := zero_span |}.
 
 Section Emit.
 Variable cmp : list N -> list N.
@@ -238,7 +239,7 @@ Definition leaf_items_of (t : nat) : list leaf_item :=
 Definition child_span (t : nat) (c : nat) : span :=
   let nodes := tree_nodes t in
   match sk_leaves nodes (length nodes) c with
-  | Some ix => cover (map (fun i => bi_span (nth i (tree_blocks t) (mk_binfo [] zero_span))) ix)
+  | Some ix => cover (map (fun i => bi_span (nth i (tree_blocks t) binfo0)) ix)
   | None => zero_span
   end.
 
